@@ -104,6 +104,7 @@ def main():
         fh.write("-- generated by tools/make_manifest.py: every property file, so that one target builds all proofs\n")
         for c in checks:
             fh.write(f"import SCModel.Props.{c['property_id']}\n")
+        fh.write("import SCModel.Props.Tie\n")
     print("checks:", [c["property_id"] for c in checks], "not_applicable:", [n["property_id"] for n in na])
 
 
